@@ -8,12 +8,13 @@ Neg(x) == 0 - x
 UniShapes == IF Tier = "quick" THEN {"normal", "gamma4", "neggamma3", "t8", "lognormal"}
              ELSE {"normal", "gamma4", "neggamma3", "t8", "lognormal", "logistic", "skewnormal", "t5"}
 KdeShapes == IF Tier = "quick" THEN {"normal", "gamma4", "t8"} ELSE {"normal", "gamma4", "neggamma3", "t8", "lognormal", "logistic"}
-Sizes(kind, shape) == IF Tier = "quick" THEN (IF shape = "gamma4" /\ kind = "unimodal" THEN {400, 5000} ELSE {400}) ELSE {300, 1000, 5000}
+Sizes(kind, shape) == IF Tier = "quick" THEN (IF shape = "gamma4" /\ kind = "unimodal" THEN {400, 5000, 20000} ELSE {400})
+                      ELSE (IF shape = "gamma4" /\ kind = "unimodal" THEN {300, 1000, 5000, 20000} ELSE {300, 1000, 5000})
 \* <<alog10, bsd>>: scales from 1e-6 to 1e6, locations many thousands of standard deviations from zero
 Maps == IF Tier = "quick" THEN {<<0, 0>>, <<Neg(6), 0>>, <<6, Neg(20000)>>, <<0, 5000>>}
         ELSE {<<0, 0>>, <<Neg(6), 0>>, <<6, 0>>, <<6, Neg(20000)>>, <<0, 5000>>, <<Neg(6), 3000>>, <<3, Neg(1000)>>, <<0, 1>>}
 Members == {[kind |-> k, shape |-> s, n |-> n, alog10 |-> m[1], bsd |-> m[2]] :
-              k \in {"unimodal", "kde", "kde_cv", "kde_cv_sub", "kde_2d"}, s \in UniShapes \cup KdeShapes, n \in {300, 400, 1000, 5000}, m \in Maps}
+              k \in {"unimodal", "kde", "kde_cv", "kde_cv_sub", "kde_2d"}, s \in UniShapes \cup KdeShapes, n \in {300, 400, 1000, 5000, 20000}, m \in Maps}
 \* "kde_cv": GaussianKDE with the cross-validated bandwidth (one skewed and one heavy-tailed shape, the unmapped and one mapped sample)
 \* "spike": a narrow tall peak on a broad base, for the kernel estimators with a data-driven (non-default) bandwidth and the default one
 \* "kde_2d": the sample handed over as a 2-D array of stacked chains
@@ -24,6 +25,7 @@ Valid(d) == /\ (d.shape = "spike" => d.kind \in {"kde", "kde_cv"} /\ <<d.alog10,
             /\ (d.kind = "kde_cv" => d.shape \in {"gamma4", "t8"} /\ d.n <= 1000 /\ <<d.alog10, d.bsd>> \in {<<0, 0>>, <<6, Neg(20000)>>, <<Neg(6), 0>>})
             /\ d.n \in Sizes(d.kind, d.shape)
             /\ (Tier = "quick" /\ d.n = 5000 => d.alog10 = 0)
+            /\ (d.n = 20000 => <<d.alog10, d.bsd>> = <<0, 0>>)                      \* (the two-stage fit of large samples)
             /\ (Tier = "quick" /\ d.kind \in {"kde", "kde_cv", "kde_cv_sub", "kde_2d"} => d.bsd # 5000)
 VARIABLES d, out
 Init == d \in {m \in Members : Valid(m)} /\ out = 0
